@@ -1,6 +1,7 @@
 //! T2 harness: runs the real crate (built from /repo's working tree) in-process and prints
 //! traces for the Lean `judge`.  One sub-command per stream.
 mod cmp;
+mod fmtstream;
 mod reprs;
 mod util;
 
@@ -11,6 +12,7 @@ fn main() {
     let code = match mode {
         "cmp" => cmp::run(rest),
         "cmp-one" => cmp::one(rest),
+        "fmt" => fmtstream::run(rest),
         _ => {
             eprintln!("harness: unknown mode {:?}", mode);
             2
